@@ -144,6 +144,23 @@ impl Net {
 		self.chans.len() - 1
 	}
 
+	/// open a confirmed, UNANNOUNCED channel a->b (`announce_for_forwarding = false`; a's current config otherwise)
+	pub fn open_private(&mut self, a: usize, b: usize, value_sat: u64, push_msat: u64) -> usize {
+		let (ready, _tx) = create_unannounced_chan_between_nodes_with_value(&self.nodes, a, b, value_sat, push_msat);
+		let chan_id = ready.channel_id;
+		let scid = self.nodes[a].node.list_channels().iter().find(|c| c.channel_id == chan_id).unwrap().short_channel_id.unwrap();
+		self.chans.push((a, b, chan_id, scid));
+		for i in 0..self.nodes.len() {
+			self.nodes[i].chain_monitor.added_monitors.lock().unwrap().clear();
+			let m = self.nodes[i].chain_monitor.monitor_updates.lock().unwrap();
+			for (cid, v) in m.iter() { self.seen_updates.insert((i, *cid), v.len()); }
+			self.seen_bcast[i] = self.nodes[i].tx_broadcaster.txn_broadcasted.lock().unwrap().len();
+			let _ = self.nodes[i].node.get_and_clear_pending_events();
+			let _ = self.nodes[i].node.get_and_clear_pending_msg_events();
+		}
+		self.chans.len() - 1
+	}
+
 	/// Completed / InProgress mode of node i's persister (queue of results for the next persist calls)
 	pub fn set_mode(&mut self, i: usize, in_progress: bool) {
 		self.in_progress[i] = in_progress;
